@@ -32,7 +32,8 @@ import time
 
 from lib import common
 
-RUN = os.path.join(common.BUILD, "ocaml", "gc", "run")
+RUN_BUILT = os.path.join(common.BUILD, "ocaml", "gc", "run")
+RUN = RUN_BUILT          # replaced by a private copy while a check is running
 CORPUS = os.path.join(common.VERIF, "corpus", "C09")
 NPROC = 16
 ASAN_ENV = "detect_leaks=1:abort_on_error=0:exitcode=99:allocator_may_return_null=1"
@@ -435,6 +436,9 @@ def first_diff(exp, out):
 def run_case(drv, hist_path, exp_text, timeout=300):
     """Execute one history against the real gc.c. -> dict(diff, oracle, crash, ...)"""
     rc, out, err = common.sh([drv, hist_path], timeout=timeout, env=drv_env())
+    if "LeakSanitizer has encountered a fatal error" in err or "LeakSanitizer does not work under ptrace" in err:
+        # the environment forbids the leak checker (ptrace): everything else is still checked
+        rc, out, err = common.sh([drv, hist_path], timeout=timeout, env=drv_env(leaks=False))
     res = {"rc": rc, "diff": None, "crash": None, "fail": None, "freed": 0, "kept": 0, "stderr": err[-1500:]}
     body = out
     done = False
@@ -701,6 +705,24 @@ def run_single(ctx, drv, path, wd, label):
     return 1, nt, r
 
 
+def private_copy(src, dst, probe_args, probe_rc, lock):
+    """copy an executable and make sure the copy runs (usage message -> exit code probe_rc)"""
+    last = ""
+    for _ in range(8):
+        try:
+            with common.Lock(lock):
+                shutil.copy2(src, dst)
+            os.chmod(dst, 0o755)
+            rc, so, se = common.sh([dst] + probe_args, timeout=30, env=drv_env(leaks=False))
+            if rc == probe_rc:
+                return dst
+            last = "probe exit code %d: %s" % (rc, se[-200:])
+        except (OSError, IOError) as e:
+            last = str(e)
+        time.sleep(1.0)
+    raise OSError("cannot obtain a working copy of %s: %s" % (src, last))
+
+
 def runner_is_current():
     """build/ocaml/gc/run exists and is newer than everything it is made from"""
     if not os.path.exists(RUN):
@@ -714,6 +736,8 @@ def runner_is_current():
 
 
 def run(ctx):
+    global RUN
+    RUN = RUN_BUILT
     t_start = time.time()
     ctx.proofs()
     lib = common.repobuild("asan")
@@ -730,6 +754,14 @@ def run(ctx):
     workroot = os.path.join(ctx.outdir, "work")
     shutil.rmtree(workroot, ignore_errors=True)
     os.makedirs(workroot)
+    # private copies: build/ and .cache/ are shared and may be rebuilt/evicted by a concurrent
+    # bin/build-ocaml or bin/repobuild while this check is running
+    try:
+        RUN = private_copy(RUN, os.path.join(workroot, "gcrun"), ["replay"], 2, "ocaml")
+        drv = private_copy(drv, os.path.join(workroot, "gcdrive"), [], 2, "cc.gcdrive")
+    except OSError as e:
+        ctx.correspondence_broken("c09-binaries-unavailable", str(e))
+        return
     ctx.coverage["exhaustive"] = False
     ctx.coverage["rule"] = (
         "operation histories generated by driving the extracted Coq model (every emitted op is accepted by "
